@@ -3,7 +3,7 @@
    limit is a runtime constant outside the model: DESIGN section 7.) *)
 From Coq Require Import List NArith ZArith QArith Bool.
 From Mathy Require Import Tok Lexer Num Expr Parser Grammar ParserObj.
-From MathyProofs Require Import LexerFacts ParserTop ParserValueError ParserObjFacts.
+From MathyProofs Require Import LexerFacts ParserTop ParserValueError ParserConsts ParserObjFacts.
 Import ListNotations.
 
 (* the fuel 10*|tokens|+20 always suffices: parsing terminates with a tree or an exception *)
@@ -56,6 +56,14 @@ Proof.
   intros s H. destruct (proj2 (lex_invalid_iff true s) H) as (c & T). unfold parse. now rewrite T.
 Qed.
 Print Assumptions C10_unsupported_character.
+
+(* a malformed number is never accepted: a successful parse has converted every number token of the input *)
+Theorem C10_malformed_number_rejected : forall s e, parse s = Ok e ->
+  forall ts t, tokenize true s = LOk ts -> In t ts -> tk t = TConst -> ~ ((2 <= dots (tv t))%nat \/ tv t = [46%N]).
+Proof.
+  intros s e H ts t T Hin Hk B. apply (parse_rejects_malformed_numbers s e H ts t T Hin Hk). now apply bad_number_spec.
+Qed.
+Print Assumptions C10_malformed_number_rejected.
 
 Example C10_example :
   parse [40;120]%N = Raises InvalidSyntax /\ parse [49;46;50;46;51]%N = Raises ValueError /\ parse [50;32;51]%N = Raises TrailingTokens
